@@ -33,5 +33,7 @@ Definition run_prim (arg : sx) : sx :=
   | 15 => Sstr (strip is_bspace (sxS a1))
   | 16 => Sopt Sdt (strptime (dec_fmt a1) (sxS a2))
   | 17 => Sstr (strftime (dec_fmt a1) (dec_dt a2))
+  | 18 => Sopt Sfloat (py_round (sxfloat a1) (sxZ a2))
+  | 19 => if sci_raises (sxfloat a1) (sxnat a2) then L [] else L [Sstr (fmtE (sxB a3) (sci_val (sxfloat a1) (sxnat a2)) (sxnat a2))]
   | _ => L [I (-998)]
   end.
